@@ -9,6 +9,14 @@ Lemma C04_pin_thresholds : (stacking_max_distance == 6 /\ stacking_normals_angle
 Proof. repeat split; reflexivity. Qed.
 Print Assumptions C04_pin_thresholds.
 
+(* pin: the heavy atoms that make up each base (the centroid is their mean) *)
+Lemma C04_pin_base_atoms :
+  base_atoms = [("A", ["N1"; "C2"; "N3"; "C4"; "C5"; "C6"; "N6"; "N7"; "C8"; "N9"]); ("G", ["N1"; "C2"; "N2"; "N3"; "C4"; "C5"; "C6"; "O6"; "N7"; "C8"; "N9"]);
+                ("C", ["N1"; "C2"; "O2"; "N3"; "C4"; "N4"; "C5"; "C6"]); ("U", ["N1"; "C2"; "O2"; "N3"; "C4"; "O4"; "C5"; "C6"]);
+                ("T", ["N1"; "C2"; "O2"; "N3"; "C4"; "O4"; "C5"; "C6"; "C7"])]%string.
+Proof. reflexivity. Qed.
+Print Assumptions C04_pin_base_atoms.
+
 (* reported = the neighbour pairs (centroids within 6 A) whose decisions do not say No *)
 Theorem C04_reported_iff : forall rs order e, Permutation order (stacking_neighbours rs) ->
     (In e (so_stackings (find_stackings rs order)) <->
